@@ -13,6 +13,7 @@
 #include <semaphore.h>
 #include <time.h>
 #include <unistd.h>
+#include <ctime>
 #include <vector>
 
 namespace galois { namespace runtime { extern unsigned int activeThreads; } }
@@ -207,16 +208,51 @@ long drain(OpRec* buf, long cap) {
   stream.erase(stream.begin(), stream.begin() + n);
   return n;
 }
+// an operation stream that keeps growing without being drained belongs to an execution that is not making progress
+// (every thread spinning): stop before it exhausts memory; 124 is what the drivers read as "did not finish"
+static inline void streamGuard() {
+  if (stream.size() > 200000000) {
+    const char m[] = "verif_rt: runaway operation stream\n";
+    if (write(2, m, sizeof m - 1)) {}
+    if (abortCb) abortCb("runaway");
+    _exit(124);
+  }
+}
 static inline void lockG() { int z = 0; while (!G.compare_exchange_weak(z, 1, std::memory_order_acquire)) { z = 0; sched_yield(); } }
 static inline void unlockG() { G.store(0, std::memory_order_release); }
+
+// spin compression (serial mode, under G): a load identical to the thread's previous record, with nothing at all written
+// by anybody in between, reads the same value and changes no clock -- it is not recorded
+struct LastRec { const void* a; short kind, mo; long gw; };
+static LastRec lastOf[256], prevOf[256];
+static long gwrites = 0;
+static time_t lastPush = 0;
+static inline bool sameLoad(const LastRec& l, const void* a, int mo) { return l.a == a && l.kind == (short)K_LOAD && l.mo == (short)mo && l.gw == gwrites; }
 
 OpScope::OpScope(const void* a, int kind, int mo, bool isWrite) : held(false), write(isWrite), addr(a), idx(-1) {
   if (cfg.mode == M_SERIAL) {
     if (!streamOn || kind == K_SPIN) return;
     lockG();
     held = true;
+    int ti = thread_index() & 255;
+    if (kind == K_LOAD && sameLoad(lastOf[ti], a, mo)) {
+      // nothing but repeated loads by anybody for a minute: every thread is waiting for a store that never comes
+      static long drops = 0;
+      if ((++drops & 0xFFFF) == 0 && ::time(nullptr) - lastPush > 60) {
+        const char m[] = "verif_rt: no progress for 60 s (all threads spinning)\n";
+        if (::write(2, m, sizeof m - 1)) {}
+        if (abortCb) abortCb("stalled");
+        _exit(124);
+      }
+      return;
+    }
+    lastPush = ::time(nullptr);
+    streamGuard();
+    if (kind != K_LOAD) ++gwrites;
     idx = (long)stream.size();
     stream.push_back(OpRec{thread_index(), a, (short)kind, (short)mo});
+    prevOf[ti] = lastOf[ti];
+    lastOf[ti] = LastRec{a, (short)kind, (short)mo, gwrites};
     return;
   }
   if (cfg.mode == M_CTL && streamOn && tl_tid >= 0 && kind != K_SPIN) {
@@ -228,7 +264,16 @@ OpScope::OpScope(const void* a, int kind, int mo, bool isWrite) : held(false), w
   point(a, kind, mo);
 }
 void OpScope::failed(int fmo) {
-  if (idx >= 0 && idx < (long)stream.size()) { stream[idx].kind = (short)K_LOAD; stream[idx].mo = (short)fmo; }
+  if (idx >= 0 && idx < (long)stream.size()) {
+    stream[idx].kind = (short)K_LOAD; stream[idx].mo = (short)fmo;
+    if (held && cfg.mode == M_SERIAL) {
+      // (still under G: the record is the last one) it wrote nothing after all; a repeated failed exchange is a spin
+      int ti = thread_index() & 255;
+      --gwrites;
+      if (idx == (long)stream.size() - 1 && sameLoad(prevOf[ti], addr, fmo)) { stream.pop_back(); lastOf[ti] = prevOf[ti]; idx = -1; }
+      else lastOf[ti] = LastRec{addr, (short)K_LOAD, (short)fmo, gwrites};
+    }
+  }
   write = false;
 }
 OpScope::~OpScope() {
@@ -239,6 +284,8 @@ void plain(int var, bool isWrite) {
   if (!streamOn) return;
   if (cfg.mode == M_SERIAL) {
     lockG();
+    streamGuard();
+    ++gwrites;
     stream.push_back(OpRec{thread_index(), (const void*)(long)var, (short)(isWrite ? 21 : 20), 0});
     unlockG();
   } else if (cfg.mode == M_CTL && tl_tid >= 0) {
